@@ -3,6 +3,7 @@ package c03
 import (
 	"bytes"
 	"fmt"
+	"sync"
 
 	kit "github.com/dapr/kit/crypto"
 	"github.com/lestrrat-go/jwx/v2/jwk"
@@ -417,11 +418,18 @@ func (e *env) evalVerify(c Case) []finding {
 		return []finding{{"machinery/reference-sign-failed", err.Error()}}
 	}
 	if c.Mut != nil {
+		orig := sig
 		switch c.Mut.Comp {
 		case "signature":
+			if len(sig) == 0 && (c.Mut.Op == "drop-first" || c.Mut.Op == "drop-last") {
+				return nil
+			}
 			sig = c.Mut.apply(sig)
 		case "digest":
 			d = c.Mut.apply(d)
+		}
+		if c.Mut.Comp == "signature" && bytes.Equal(orig, sig) {
+			return nil // (nothing to strip: not a mutation)
 		}
 	}
 	v := kitVerify(d, clip(sig), a.Name, k.JWK)
@@ -450,4 +458,48 @@ func (e *env) evalVerify(c Case) []finding {
 		add([]cond{{"signature-of-another-key-accepted", fmt.Sprintf("signed by %s: %s", signer, v)}})
 	}
 	return s.out
+}
+
+// ---------------------------------------------------------------------------
+// a genuine RSA signature whose first octet is 0x00
+
+// zeroSigDigest[alg] is the index i >= zeroSearchFrom of the first digest
+// digest(i, hashLen) whose reference signature (key A, constant-stream
+// randomness) starts with a zero octet; -1 if none among zeroSearchTries. An
+// RSA signature is an octet string of exactly the modulus size (RFC 8017
+// 8.1.2 / 8.2.2 step 1): such a signature with that octet removed is a
+// different, shorter string and must be rejected - an implementation that
+// left-pads short signatures accepts it.
+var (
+	zeroSigDigest   = map[string]int{}
+	zeroSigMu       sync.Mutex
+	zeroSearchFrom  = 100
+	zeroSearchTries = 6000
+)
+
+func findZeroSignatures(algs []*algInfo) {
+	var wg sync.WaitGroup
+	for _, a := range algs {
+		if !(a.Known && a.ListedSig) || (a.Ref.Class != cryptoref.SigRSAPKCS1 && a.Ref.Class != cryptoref.SigRSAPSS) {
+			continue
+		}
+		a := a
+		wg.Add(1)
+		go func() {
+			defer wg.Done()
+			priv := cryptokeys.Asym(cryptokeys.RSAPriv, "A")
+			found := -1
+			for i := zeroSearchFrom; i < zeroSearchFrom+zeroSearchTries; i++ {
+				s, err := cryptoref.Sign(a.Ref, priv.RSA, digest(i, a.Ref.Hash.Size()))
+				if err == nil && s[0] == 0 {
+					found = i
+					break
+				}
+			}
+			zeroSigMu.Lock()
+			zeroSigDigest[a.Name] = found
+			zeroSigMu.Unlock()
+		}()
+	}
+	wg.Wait()
 }
